@@ -1,4 +1,3 @@
-import Secp.Proofs.WrapperTiesN
 import Secp.Proofs.Lawful
 import Secp.Proofs.AddSubN
 import Secp.Proofs.ToMontN
